@@ -13,6 +13,9 @@ from .pad import pad_value
 OPS = {
     "diff": lambda l, r: r - l,
     "interp": lambda l, r: (l + r) / 2,
+    # the same mean, formed without the intermediate sum: identical wherever l + r is representable, and the mean itself
+    # (instead of inf) where it is not
+    "interp_halves": lambda l, r: l / 2 + r / 2,
     "min": lambda l, r: np.minimum(l, r),
     "max": lambda l, r: np.maximum(l, r),
 }
